@@ -446,9 +446,10 @@ pub fn shrink_candidates(case: &Case) -> Vec<Case> {
     }
 }
 
-pub fn pin_schedule(case: &Case, clause: &str) -> Case {
+pub fn pin_schedule(case: &Case, prop: &str, clause: &str) -> Case {
     match case {
         Case::P(c) => Case::P(crate::psim::pin_schedule(c, clause)),
+        Case::L(c) => Case::L(crate::lsim::pin_schedule(c, prop, clause)),
         other => other.clone(),
     }
 }
